@@ -51,45 +51,16 @@ static unsigned keyrank(const struct uf *s, unsigned long i) { return isroot(s, 
 static _Bool keylt(const struct uf *s, unsigned long i, unsigned long j) {
     return keyrank(s, i) < keyrank(s, j) || (keyrank(s, i) == keyrank(s, j) && i < j);
 }
-static unsigned csize(const struct uf *s, unsigned char label) {
-    unsigned c = 0;
-    for (unsigned long k = 0; k < N; k++) if (k < s->n && s->set[k] == label) c++;
-    return c;
-}
-static _Bool INV(const struct uf *s) {
-    if (!(s->n <= N)) return 0;
-    for (unsigned long i = 0; i < N; i++) if (i < s->n) {
-        if (!(par(s, i) < s->n)) return 0;
-        if (!(s->set[i] < N)) return 0;
-        if (!isroot(s, i)) {
-            if (!keylt(s, i, par(s, i))) return 0;
-            if (s->set[i] != s->set[par(s, i)]) return 0;
-        } else {
-            if (!(rk(s, i) < 8 && (1u << rk(s, i)) <= csize(s, s->set[i]))) return 0;
-            for (unsigned long j = 0; j < N; j++) if (j < s->n && j != i && isroot(s, j) && s->set[j] == s->set[i]) return 0;
-        }
-    }
-    return 1;
-}
-static _Bool EVOLVE(const struct uf *a, const struct uf *b) {
-    if (!INV(b) || b->n != a->n) return 0;
-    for (unsigned long i = 0; i < N; i++) if (i < a->n) {
-        if (!isroot(a, i) && (isroot(b, i) || b->frank[i] != a->frank[i])) return 0;
-        if (keyrank(b, i) < keyrank(a, i)) return 0;
-        for (unsigned long j = 0; j < N; j++) if (j < a->n && a->set[i] == a->set[j] && b->set[i] != b->set[j]) return 0;
-    }
-    return 1;
-}
-/* silent environment (sequential contracts): own path halving changes neither roots, ranks of roots nor classes */
-static _Bool STILL(const struct uf *a, const struct uf *b) {
-    if (b->n != a->n) return 0;
-    for (unsigned long i = 0; i < N; i++) if (i < a->n) {
-        if (isroot(a, i) != isroot(b, i)) return 0;
-        if (isroot(a, i) && rk(a, i) != rk(b, i)) return 0;
-        if (a->set[i] != b->set[i]) return 0;
-    }
-    return 1;
-}
+/* csize, INV, EVOLVE, STILL are generated, fully unrolled for N (loop- and assignment-free expressions: units/unionfind/unit.py
+   writes uf_gen.h each run).  Their definitions, for reference:
+     csize(s,l)  = |{k < n : set[k] == l}|
+     INV(s)      = n <= N  and for all i < n: par(i) < n, set[i] < N,
+                   non-root i: key(i) < key(par(i)) and set[i] == set[par(i)]
+                   root i    : rank(i) < 8, 2^rank(i) <= csize(set[i]), no other root j < n has set[j] == set[i]
+     EVOLVE(a,b) = INV(b), b.n == a.n, for all i < n: (non-root in a => non-root in b with the same frozen rank),
+                   keyrank_b(i) >= keyrank_a(i), for all j < n: a.set[i] == a.set[j] => b.set[i] == b.set[j]
+     STILL(a,b)  = b.n == a.n, for all i < n: root-ness, ranks of roots and class labels unchanged */
+#include "uf_gen.h"
 static _Bool same(const struct uf *s, unsigned long i, unsigned long j) { return s->set[i] == s->set[j]; }
 /* sequential functional contract of a union: classes afterwards = classes before with class(x) and class(y) merged */
 static _Bool MERGED(const struct uf *a, const struct uf *b, unsigned long x, unsigned long y) {
@@ -197,7 +168,7 @@ static void havoc_state(void) { struct uf b; S.s = b; struct uf c; S.snap = c; s
 
 /* findNode.0: while (x != b2p(get(x))) { ...halve... x = newParent; } */
 static _Bool I_fn(unsigned long x) {
-    return INV(&S.s) && x < S.s.n && EVOLVE(&S.entry_fn, &S.s) && same(&S.s, x, Q.x0) && S.merges == 0 && QUIET(&S.entry_fn);
+    return x < S.s.n && EVOLVE(&S.entry_fn, &S.s) && same(&S.s, x, Q.x0) && S.merges == 0 && QUIET(&S.entry_fn);
 }
 void vx_enter_findNode_0(void) { S.f_fn = 1; S.entry_fn = S.s; }
 _Bool vx_head_findNode_0(unsigned long *x) {
@@ -214,7 +185,7 @@ _Bool vx_head_findNode_0(unsigned long *x) {
 }
 /* sameSet.0 / unionNodes.0: while (true) { x = findNode(x); y = findNode(y); ... } */
 static _Bool I_ss(unsigned long x, unsigned long y) {
-    return INV(&S.s) && x < S.s.n && y < S.s.n && EVOLVE(&H.entry_ss, &S.s) && same(&S.s, x, Q.x0) && same(&S.s, y, Q.y0) && S.merges == 0 && QUIET(&H.entry_ss);
+    return x < S.s.n && y < S.s.n && EVOLVE(&H.entry_ss, &S.s) && same(&S.s, x, Q.x0) && same(&S.s, y, Q.y0) && S.merges == 0 && QUIET(&H.entry_ss);
 }
 void vx_enter_sameSet_0(void) { H.f_ss = 1; H.entry_ss = S.s; }
 _Bool vx_head_sameSet_0(unsigned long *x, unsigned long *y) {
@@ -230,7 +201,7 @@ _Bool vx_head_sameSet_0(unsigned long *x, unsigned long *y) {
     return 1;
 }
 static _Bool I_un(unsigned long x, unsigned long y) {
-    return INV(&S.s) && x < S.s.n && y < S.s.n && EVOLVE(&H.entry_un, &S.s) &&
+    return x < S.s.n && y < S.s.n && EVOLVE(&H.entry_un, &S.s) &&
            /* the code may swap x and y (std::swap) before retrying */
            ((same(&S.s, x, Q.x0) && same(&S.s, y, Q.y0)) || (same(&S.s, x, Q.y0) && same(&S.s, y, Q.x0))) &&
            Q.req_on && Q.req_x == Q.x0 && Q.req_y == Q.y0
@@ -263,7 +234,7 @@ _Bool vx_head_unionNodes_0(unsigned long *x, unsigned long *y) {
    the state only EVOLVEs; this thread performs no merge.  Sequentially: the result IS the root, roots/ranks/classes unchanged. */
 unsigned long h_findNode(void *ds, unsigned long x)
 __CPROVER_requires(DS && INV(&S.s) && x < S.s.n && S.merges == 0)
-__CPROVER_ensures(INV(&S.s) && RET < S.s.n && S.merges == 0 && S.fresh == OLD(S.fresh))
+__CPROVER_ensures(RET < S.s.n && S.merges == 0 && S.fresh == OLD(S.fresh))   /* INV(S.s) is part of EVOLVE(_, S.s) below */
 __CPROVER_ensures(EVOLVEv(OLD(S.s), S.snap) && EVOLVE(&S.snap, &S.s))
 __CPROVER_ensures(isroot(&S.snap, RET) && same(&S.snap, RET, x))
 #ifdef VX_SEQ
